@@ -1,5 +1,6 @@
 """C05 Scratch registers never collide with registers the script uses (structural clauses)."""
-from common import Report
+import re
+from common import Report, Broken
 from facts import hir_walk, op_local, op_place, place_local, place_proj
 from rules import arms, flow, visit
 
@@ -293,4 +294,140 @@ def run(db, tier):
     decl_push = any(c["f"].endswith("Vec::<T, A>::push") for c in hirq.call_seq(dv.hir))
     rep.check(decl_push, "R-SCOPE-END", "visit_stmt|every declared local is recorded", dv.loc, "declarations push their DefId onto the current block's list",
               "declared locals are no longer recorded for release")
+    # ---------------- R-ANTISCRATCH: the ANM hook answers for exactly the games whose built-in table has the instruction
+    _anm_game_sets(db, rep)
     return rep
+
+
+def _game_order(db):
+    adt = db.adts.get("game::Game")
+    return ["game::Game::" + v["n"] for v in adt["variants"]] if adt else []
+
+
+_LETS = {}
+
+
+def _eval_game_pred(n, game, games, opcode_ok=True):
+    """evaluate a boolean HIR expression over `self.game` for one concrete game (opcode equalities count as true);
+    returns True / False / None (not understood)"""
+    k = n.get("k")
+    if k in ("Paren", "Use") and "e" in n:
+        return _eval_game_pred(n["e"], game, games)
+    if k == "Unary" and n.get("op") == "!":
+        v = _eval_game_pred(n["e"], game, games)
+        return None if v is None else not v
+    if k == "Binary" and n.get("op") in ("&&", "||"):
+        a, b = _eval_game_pred(n["l"], game, games), _eval_game_pred(n["r"], game, games)
+        if a is None or b is None:
+            return None
+        return (a and b) if n["op"] == "&&" else (a or b)
+    def side(x):
+        while x.get("k") in ("AddrOf", "Paren") and "e" in x:
+            x = x["e"]
+        if x.get("k") == "Path" and x.get("p") in games:
+            return games.index(x["p"])
+        if x.get("k") == "Field" and x.get("n") == "game":
+            return games.index(game)
+        return None
+    if k == "Binary" and n.get("op") in ("<=", "<", ">=", ">", "==", "!="):
+        a, b = side(n["l"]), side(n["r"])
+        if a is None or b is None:
+            # opcode == literal and the like
+            l, r = n["l"], n["r"]
+            if any(x.get("k") == "Path" and x.get("p") == "opcode" for x in (l, r)):
+                return True
+            return None
+        return {"<=": a <= b, "<": a < b, ">=": a >= b, ">": a > b, "==": a == b, "!=": a != b}[n["op"]]
+    if k == "Match":
+        # matches!(self.game, A | B | ..) expands to match { A | B => true, _ => false }
+        sc = side(n["s"])
+        if sc is None:
+            return None
+        for arm in n["arms"]:
+            pats = arm["p"]["ps"] if arm["p"].get("k") == "Or" else [arm["p"]]
+            hit = False
+            for p in pats:
+                if p.get("k") in ("Wild", "Bind"):
+                    hit = True
+                elif p.get("k") in ("Path", "TS", "Struct") and p.get("p") == game:
+                    hit = True
+            if hit:
+                b = arm["b"]
+                if b.get("k") == "Lit" and b.get("v") in ("true", "false"):
+                    return b["v"] == "true"
+                return _eval_game_pred(b, game, games)
+        return None
+    if k == "Block" and not n.get("ss") and "e" in n:
+        return _eval_game_pred(n["e"], game, games)
+    if k == "Path" and n.get("rk") == "Local":
+        inits = _LETS.get(n.get("p")) or []
+        if len(inits) == 1:
+            return _eval_game_pred(inits[0], game, games)
+        return None
+    return None
+
+
+def _table_presence(db, table_ids, opcode, games):
+    """games for which the version-ranged built-in tables contain `opcode` (an entry applies from its game onward, a later
+    `None` entry removes it)"""
+    events = []
+    for tid in table_ids:
+        d = db.statics.get(tid)
+        if d is None:
+            continue
+        for x in hir_walk(d["hir"]):
+            if x.get("k") == "Tup" and len(x.get("es", [])) == 3 and x["es"][0].get("k") == "Path" and x["es"][0].get("p") in games \
+                    and x["es"][1].get("k") == "Lit" and re.match(r"^%d(_?[iu]\d+)?$" % opcode, x["es"][1]["v"]):
+                third = x["es"][2]
+                present = not (third.get("k") == "Path" and (third.get("p") or "").endswith("Option::None"))
+                events.append((games.index(x["es"][0]["p"]), present))
+    out = set()
+    for gi, g in enumerate(games):
+        st = None
+        for at, present in sorted(events):
+            if at <= gi:
+                st = present
+        if st:
+            out.add(g)
+    return out, len(events)
+
+
+def _anm_game_sets(db, rep):
+    games = _game_order(db)
+    hook = db.fn("<formats::anm::AnmHooks07 as llir::LanguageHooks>::instr_disables_scratch_regs")
+    rep.fn(hook)
+    body = hook.hir
+    # opcodes named by the hook
+    ops = sorted(set(int(re.match(r"^(\d+)", x["v"]).group(1)) for n in hir_walk(body) if n.get("k") == "Binary" and n.get("op") == "=="
+                     for x in (n["l"], n["r"]) if x.get("k") == "Lit" and re.match(r"^\d+", x.get("v", ""))))
+    rep.check(len(games) >= 20 and bool(ops), "R-ANTISCRATCH", "AnmHooks07|opcodes", hook.loc, "anti-scratch opcodes %s" % ops, "no opcode literal found in the ANM anti-scratch hook")
+    cond = None
+    for n in hir_walk(body):
+        if n.get("k") == "MCall" and (n.get("f") or "").endswith("<impl bool>::then"):
+            cond = n["r"]
+        elif n.get("k") == "If" and cond is None:
+            cond = n["c"]
+    from rules import hirq
+    _LETS.clear()
+    _LETS.update(hirq.lets(hook))
+    tables = [k for k in db.statics if k.startswith("core_mapfiles::anm::ANM_INS_")]
+    for op in ops:
+        present, n_ev = _table_presence(db, tables, op, games)
+        if cond is None:
+            rep.bad("R-ANTISCRATCH", "AnmHooks07|%d|games" % op, hook.loc, "the hook's condition was not found")
+            continue
+        answered = set()
+        unknown = False
+        for g in games:
+            v = _eval_game_pred(cond, g, games)
+            if v is None:
+                unknown = True
+            elif v:
+                answered.add(g)
+        if unknown:
+            raise Broken("the game predicate of AnmHooks07::instr_disables_scratch_regs is not understood")
+        short = lambda s_: sorted(x.rsplit("::", 1)[-1] for x in s_)
+        rep.check(n_ev > 0 and answered == present, "R-ANTISCRATCH", "AnmHooks07|%d|games" % op, hook.loc,
+                  "ins_%d forbids scratch registers in exactly the games that have it (%s)" % (op, ", ".join(short(present))),
+                  "ins_%d exists in the built-in ANM tables of %s but the hook forbids scratch use only for %s: in %s a script using it silently gets scratch registers" % (
+                      op, short(present), short(answered), short(present - answered)))
